@@ -20,7 +20,10 @@ ID = "C17"
 LEAN_MODULES = ["TempestVerif.Props.C17"]
 RULE = ("suite ops: random op sequences of length 5..60 over set/update (copy=True/False, None/scalar/new array/previously "
         "returned array), get_current(key|None), get_history(key, index|None, flat), get_last_history, commit(strict), "
-        "compute_results, to_dict, update_from_dict(export), ~15% malformed ops (invalid keys, bad indices, unknown ops, "
+        "compute_results, compute_logw_and_logz(beta), to_dict, update_from_dict / from_dict of an exported dictionary (in ~2/3 of the "
+        "cases the exported list objects — and the exported dictionary itself — are passed, not fresh containers; afterwards the "
+        "caller overwrites every array of that dictionary and clears / appends to its lists / blanks its _current slots), "
+        "~15% malformed ops (invalid keys, bad indices, unknown ops, "
         "dangling handles), and the caller overwriting returned arrays with a sentinel (right away with prob 1/2, else later "
         "at random); executed on the real StateManager and on the Lean model, digests of all observable reads compared "
         "exactly after every op (regime X: no arithmetic).  Non-trivial = the sequence performs at least one commit, one "
@@ -33,15 +36,19 @@ MODELLED = ["array shapes/dtypes are not modelled: payload = flattened content; 
             "(np.array of a ragged list is outside the model)",
             "numerical content of logw (compute_logw_and_logz, property C04): compared by length only; compute_results() is "
             "exercised only when the beta/logz/logl histories are well formed (same number of batches, beta/logz scalars, logl arrays)",
-            "list containers passed to update_from_dict: the harness passes fresh dict/list containers that share the arrays "
-            "(container aliasing of imported history lists is not modelled)",
+            "from_dict: a second StateManager living beside the first is not in the model (single-manager state); the harness "
+            "covers it on the real code: other = StateManager.from_dict(d), then every read of `other` (current, history, results, "
+            "logw) must stay what it was while the caller overwrites / mutates d and keeps operating on the first manager (digest section O=)",
+            "list containers: update_from_dict builds fresh lists, so the model gives the caller's lists no identity; the harness "
+            "passes the exported lists themselves and mutates them afterwards (op `mut`), which must change nothing",
             "save_state/load_state (dill round trip) = import of fresh arrays; not exercised here (C08)",
             "non-ndarray mutable values (lists, object arrays) are outside the model: _ensure_copy returns them uncopied"]
 ASSUMPTIONS = ["the caller can only write into arrays it was handed (returned by an accessor or created by itself)",
-               "references stored on request are shared by design and the theorems exclude exactly those addresses: arrays passed with "
-               "copy=False or inside the '_current' section of update_from_dict may alias _current only (ghost set `imported`), arrays inside "
-               "the '_history' section of update_from_dict may alias _history (ghost set `importedH`); an array passed with copy=False "
-               "must still never alias committed history or results (C17_history_indep_of_scribble; checked by the oracle)"]
+               "the only reference stored on request is set_current/update_current(copy=False): such an array may alias _current "
+               "(ghost set `imported`) and the theorems about `_current` reads exclude exactly those addresses; it must still never alias "
+               "committed history or results (C17_history_indep_of_scribble; checked by the oracle).  Arrays and lists passed to "
+               "update_from_dict / from_dict are ordinary caller-held objects: nothing may alias them afterwards "
+               "(C17_import_never_aliases)"]
 
 
 
@@ -194,8 +201,7 @@ class Real:
         self.sm = StateManager(2)
         self.recs = []          # per op: (list of arrays the caller obtained, export dict or None)
         self.stats = {"commit": 0, "arrays_out": 0, "scribbled": 0}
-        self.imp_h = []         # arrays that entered _history by reference (update_from_dict): sharing them is the caller's choice
-        self.stale = False      # the caller wrote into such an array after which no mutator ran: a cached results() may lag behind
+        self.others = []        # second managers built by from_dict: (manager, digest of all its reads when it was built)
 
     # -- argument parsing mirrors Drv/C17.lean: None => malformed
     def _arg(self, t):
@@ -261,8 +267,6 @@ class Real:
                 for a in self.recs[int(f[1])][0]:
                     if a.size:
                         self.stats["scribbled"] += 1
-                    if any(a is b for b in self.imp_h):
-                        self.stale = True
                     a[...] = int(f[2])
                 out = ("U", [], None)
         elif kind == "set" and len(f) == 4:
@@ -304,7 +308,7 @@ class Real:
                 out = ("skip", [], None)
             else:
                 out = self._call(lambda: sm.compute_results(),
-                                 lambda v: ("D:" + _show_results(v, None if self.stale else ref_logw(sm, 1.0)), self._arrays(v), None))
+                                 lambda v: ("D:" + _show_results(v, ref_logw(sm, 1.0)), self._arrays(v), None))
         elif kind == "logw" and len(f) == 2 and _lean_int(f[1]):
             if not well_formed(read_history(sm)):
                 out = ("skip", [], None)
@@ -316,27 +320,62 @@ class Real:
             out = self._call(lambda: sm.to_dict(),
                              lambda v: ("X:" + _show_dict(v["_current"]) + ";" + _show_hist(v["_history"]),
                                         self._arrays(v["_current"]) + self._arrays(v["_history"]), v))
-        elif kind == "imp" and len(f) == 3 and f[1].isdigit() and all(ch in "chz" for ch in f[2]):
+        elif kind in ("imp", "fromd") and len(f) == 3:
+            d = self._dict_for(f[1], f[2])
+            if d is not None and kind == "imp":
+                out = self._call(lambda: sm.update_from_dict(d), lambda v: ("U", [], None))
+            elif d is not None:
+                from tempest.state_manager import StateManager
+                other = StateManager.from_dict(d)
+                self.others = self.others[-1:] + [(other, digest(other, "-"))]
+                out = ("U", [], None)
+        elif kind == "mut" and len(f) == 3 and f[1].isdigit() and f[2] in ("clear", "dup", "nonecur"):
             i = int(f[1])
             if i < len(self.recs) and self.recs[i][1] is not None:
                 ex = self.recs[i][1]
-                d = {}
-                if "c" in f[2]:
-                    d["_current"] = dict(ex["_current"])                        # fresh containers, shared arrays
-                if "h" in f[2]:
-                    d["_history"] = {k: list(v) for k, v in ex["_history"].items()}
-                    if "z" in f[2]:
-                        d["_history"]["zz"] = []
-                elif "z" in f[2]:
-                    d["_history"] = {"zz": []}
-                out = self._call(lambda: sm.update_from_dict(d), lambda v: ("U", [], None))
-                if "h" in f[2]:
-                    self.imp_h += self._arrays(d["_history"])
+                if f[2] == "clear":
+                    for v in ex["_history"].values():
+                        v.clear()
+                elif f[2] == "dup":
+                    for v in ex["_history"].values():
+                        if v:
+                            v.append(v[-1])
+                else:
+                    for k in ex["_current"]:
+                        ex["_current"][k] = None
+                out = ("U", [], None)
         self.recs.append((out[1], out[2]))
         self.stats["arrays_out"] += sum(1 for a in out[1] if a.size)
-        if out[0] == "U" and kind in ("set", "upd", "commit", "imp"):
-            self.stale = False          # _invalidate_cache() ran
         return out[0]
+
+    def _dict_for(self, idx, mode):
+        """the dictionary handed to update_from_dict / from_dict for `imp:<idx>:<mode>` (None = malformed op).
+        With `s` the exported list objects themselves are passed (and the exported dictionary itself when every section is
+        wanted), otherwise fresh lists holding the same arrays; the arrays are always the exported ones."""
+        if not (idx.isdigit() and all(ch in "chzs" for ch in mode)):
+            return None
+        i = int(idx)
+        if i >= len(self.recs) or self.recs[i][1] is None:
+            return None
+        ex = self.recs[i][1]
+        same = "s" in mode
+        if same and "c" in mode and "h" in mode and "z" not in mode:
+            return ex
+        d = {}
+        if "c" in mode:
+            d["_current"] = ex["_current"] if same else dict(ex["_current"])
+        if "h" in mode:
+            d["_history"] = {k: (v if same else list(v)) for k, v in ex["_history"].items()}
+            if "z" in mode:
+                d["_history"]["zz"] = []
+        elif "z" in mode:
+            d["_history"] = {"zz": []}
+        return d
+
+    def others_status(self):
+        if not self.others:
+            return "-"
+        return "ok" if all(digest(o, "-") == snap for o, snap in self.others) else "BAD"
 
 
 def _lean_int(t):
@@ -350,7 +389,7 @@ def run_real(tokens):
     out = []
     for t in tokens:
         res = r.exec(t)
-        out.append(digest(r.sm, res, check_cached_logw=not r.stale))
+        out.append(digest(r.sm, res) + "#O=" + r.others_status())
     return out, r
 
 
@@ -424,12 +463,12 @@ class Gen:
             self.emit(f"upd:{k1}~{self.fresh(k1)},bogus~S1,x9~N:{self.rng.choice('01')}", ("other",))
         elif r == 6:
             self.emit(self.rng.choice(["frob", "commit", "commit:2", "set:u", "get", "todict:1", "results:0", "geth:u:x:0",
-                                       "geth:u:0:2", "logw", "logw:x", "logw:1:1", "set:u:Q:1", "set:u:A1.x:1", "set:u:S:1", "upd:u:1", "scr:0", "imp:0"]),
+                                       "geth:u:0:2", "logw", "logw:x", "logw:1:1", "set:u:Q:1", "set:u:A1.x:1", "set:u:S:1", "upd:u:1", "scr:0", "imp:0", "mut:0", "mut:0:frob", "fromd:0", "imp:0:q"]),
                       ("other",))
         elif r == 7:
             self.emit(f"scr:{len(self.toks) + self.rng.randint(0, 40)}:{SENTINEL}", ("other",))
         elif r == 8:
-            self.emit(f"imp:{self.rng.randint(0, len(self.toks) + 3)}:ch", ("other",))
+            self.emit(f"{self.rng.choice(['imp', 'fromd'])}:{self.rng.randint(0, len(self.toks) + 3)}:ch", ("other",))
         elif r == 9:
             # a handle that cannot denote a single array: an op that returned none, or an op that does not exist yet
             c = [i for i, m in enumerate(self.meta) if m[0] in ("commit", "scr", "imp")]   # these never hand out arrays
@@ -488,8 +527,17 @@ class Gen:
         elif r < 0.91:
             ex = [i for i, m in enumerate(self.meta) if m[0] == "export"]
             if ex:
-                mode = rng.choice(["ch", "ch", "ch", "c", "h", "chz", "z"])
-                self.emit(f"imp:{rng.choice(ex)}:{mode}", ("imp",))
+                mode = rng.choice(["ch", "ch", "ch", "c", "h", "chz", "z"]) + ("s" if rng.random() < 0.65 else "")
+                i = rng.choice(ex)
+                if rng.random() < 0.25:
+                    self.emit(f"fromd:{i}:{mode}", ("imp",))
+                else:
+                    self.emit(f"imp:{i}:{mode}", ("imp",))
+                # what the caller passed in stays in its hands: overwrite the arrays, mutate the lists
+                if rng.random() < 0.6:
+                    self.scr_for(i)
+                if rng.random() < 0.5:
+                    self.emit(f"mut:{i}:{rng.choice(['clear', 'dup', 'dup', 'nonecur'])}", ("scr",))
             else:
                 acc = self.emit("todict", ("export",))
         else:
@@ -585,6 +633,8 @@ def correspond_ops(tier):
 
 
 FIXED = [
+    "set:u:A3.4:1;set:beta:S1:1;set:logz:S0:1;set:logl:A5.6:1;commit:0;commit:0;todict;imp:6:chs;scr:6:-9;mut:6:clear;getall;"
+    "todict;fromd:11:chs;imp:11:hs;mut:11:dup;scr:11:-7;mut:11:nonecur;results;commit:0;mut:11:clear;getall",
     "set:beta:S1:1;set:logz:S0:1;set:logl:A5.6:1;commit:0;logw:1;scr:4:-9;logw:1;results;scr:7:-9;logw:1;commit:0;logw:2;scr:11:-9;logw:2;logw:1",
     "set:u:A3.4:1;commit:0;todict;scr:2:-9;get:u;geth:u:0:0",
     "set:u:A3.4:1;set:logl:A5.6:1;set:beta:S0:1;set:logz:S0:1;commit:0;results;scr:5:-9;results",
@@ -937,13 +987,15 @@ def _cmp_reads(a, b):
 
 
 def oracle(tokens):
-    """Property oracle on the real object: (1) a scribble on arrays that were not shared on request changes no observable read;
+    """Property oracle on the real object: (1) a scribble on arrays that were not stored with copy=False changes no observable read
+    (this includes every array of a dictionary that was passed to update_from_dict / from_dict), a scribble on an array that was
+    stored with copy=False changes no history / results read, and mutating the containers of such a dictionary changes nothing;
+    a manager built with from_dict keeps reading the same;
     (2) after every op other than update_from_dict the old history is a bitwise prefix of the new one;
     (3) a successful commit appends exactly one entry per non-None recorded key.
     Returns a description of the first violation, or None."""
     r = Real()
-    imp_c = []             # arrays stored by reference into _current on request (copy=False / imported "_current" section)
-    imp_h = []             # arrays stored by reference into _history on request (imported "_history" section)
+    imp_c = []             # arrays stored by reference into _current on request (set_current/update_current(copy=False))
     isin = lambda a, l: any(a is b for b in l)  # noqa
     betas = (1.0,)
     for j, t in enumerate(tokens):
@@ -953,7 +1005,6 @@ def oracle(tokens):
         tgt = []
         if kind == "scr" and len(f) == 3 and f[1].isdigit() and int(f[1]) < len(r.recs):
             tgt = r.recs[int(f[1])][0]
-        shared_h = any(isin(a, imp_h) for a in tgt)
         shared_c = any(isin(a, imp_c) for a in tgt)
         held = [a for i in _refs(t) if i < len(r.recs) for a in r.recs[i][0]]
         res = r.exec(t)
@@ -961,19 +1012,12 @@ def oracle(tokens):
             betas = (float(int(f[1])),)
             before = before[:3] + (_state_reads(r.sm, betas)[3],)
         after = _state_reads(r.sm, betas)
-        # ghost bookkeeping of opt-in sharing
-        if res != "bad-op":
-            if kind in ("set", "upd") and t.endswith(":0"):
-                imp_c += held + r.recs[-1][0]
-            if kind == "imp" and f[1].isdigit() and int(f[1]) < len(r.recs) and r.recs[int(f[1])][1] is not None:
-                ex = r.recs[int(f[1])][1]
-                if "c" in f[2]:
-                    imp_c += Real._arrays(ex["_current"])
-                if "h" in f[2]:
-                    imp_h += Real._arrays(ex["_history"])
+        if r.others_status() == "BAD":
+            return f"op {j} `{t}`: a second manager built with from_dict() reads differently than when it was built"
+        # ghost bookkeeping of opt-in sharing: copy=False is the only way to ask for it
+        if res != "bad-op" and kind in ("set", "upd") and t.endswith(":0"):
+            imp_c += held + r.recs[-1][0]
         if kind == "scr":
-            if shared_h:
-                continue
             if shared_c:
                 # an array shared with _current on request: history and results must still be untouched
                 d = _cmp_reads(({}, before[1], before[2], before[3]), ({}, after[1], after[2], after[3]))
@@ -1011,7 +1055,7 @@ def _refs(tok):
     """(field path, referenced op index) for every op reference inside a token"""
     f = tok.split(":")
     out = []
-    if f[0] in ("scr", "imp") and len(f) == 3 and f[1].isdigit():
+    if f[0] in ("scr", "imp", "mut", "fromd") and len(f) == 3 and f[1].isdigit():
         out.append(int(f[1]))
     elif f[0] == "set" and len(f) == 4 and f[2][:1] == "H" and f[2][1:].isdigit():
         out.append(int(f[2][1:]))
@@ -1026,7 +1070,7 @@ def _refs(tok):
 def _subst(tok, pos):
     f = tok.split(":")
     m = lambda s: str(pos.get(int(s), int(s)))  # noqa
-    if f[0] in ("scr", "imp") and len(f) == 3 and f[1].isdigit():
+    if f[0] in ("scr", "imp", "mut", "fromd") and len(f) == 3 and f[1].isdigit():
         f[1] = m(f[1])
     elif f[0] == "set" and len(f) == 4 and f[2][:1] == "H" and f[2][1:].isdigit():
         f[2] = "H" + m(f[2][1:])
